@@ -232,6 +232,37 @@ static void space2 (long start)
     snprintf (sig, sizeof (sig), "len=%d/shape=%d/size=%d", L, shape, sz);
     limits_case (p, sig, start);
   }
+  /* every fill level of the instruction table: k one-slot instructions (temporaries only), then a tail whose
+   * expansion (loads + instruction + stores) differs per operand kind, so that each kind meets the table end at
+   * every distance */
+  for (k = 0; k <= 101; k++) for (shape = 0; shape < 8; shape++) for (sz = 1; sz <= 4; sz *= 4) {
+    OrcProgram *p = orc_program_new ();
+    int i;
+    static const char *copyn[] = { "", "copyb", "copyw", "", "copyl" };
+    orc_program_set_name (p, "xc2f");
+    orc_program_add_destination (p, sz, "d1");
+    orc_program_add_source (p, sz, "s1");
+    orc_program_add_source (p, sz, "s2");
+    orc_program_add_temporary (p, sz, "t1");
+    orc_program_add_temporary (p, sz, "t2");
+    orc_program_add_constant (p, sz, 7, "c1");
+    orc_program_add_parameter (p, sz, "p1");
+    orc_program_append_ds_str (p, copyn[sz], "t1", "s1");
+    orc_program_append_ds_str (p, copyn[sz], "t2", "s2");
+    for (i = 0; i < k; i++) orc_program_append_str (p, addn[sz], "t1", "t1", "t2");
+    switch (shape) {
+      case 0: orc_program_append_str (p, addn[sz], "d1", "t1", "t2"); break;
+      case 1: orc_program_append_str (p, addn[sz], "d1", "d1", "s1"); break;	/* destination read as a source */
+      case 2: orc_program_append_str (p, addn[sz], "d1", "s1", "d1"); break;
+      case 3: orc_program_append_str (p, addn[sz], "d1", "d1", "d1"); break;
+      case 4: orc_program_append_str (p, addn[sz], "d1", "d1", "c1"); break;
+      case 5: orc_program_append_str (p, addn[sz], "d1", "s1", "s2"); break;
+      case 6: orc_program_append_str (p, addn[sz], "d1", "t1", "p1"); break;
+      case 7: orc_program_append_str (p, addn[sz], "d1", "d1", "s1"); orc_program_append_str (p, addn[sz], "d1", "d1", "s2"); break;
+    }
+    snprintf (sig, sizeof (sig), "fill=%d/tail=%d/size=%d", k, shape, sz);
+    limits_case (p, sig, start);
+  }
   /* number of arrays 1..12 (dest/source split), used and unused */
   for (n = 1; n <= 12; n++) for (k = 1; k <= 4 && k <= n; k++) for (sz = 1; sz <= 4; sz *= 2) {
     OrcProgram *p = orc_program_new ();
